@@ -91,6 +91,19 @@ def run(mod, tier, seed, replay=None):
             pviol.append((line, io, mo, why))
         elif have_driver and not agree(line, io, mo):
             disagreements.append((line, io, mo))
+    # T-out: the model's decidable outcome predicate, evaluated by the Lean driver on the
+    # implementation's own observation (optional second pass of a check module)
+    outcome_checked = 0
+    if hasattr(mod, "second_pass") and have_driver:
+        lines2 = [(mod.second_pass(l, io) if io is not None else None) for l, io in zip(cases, impl)]
+        idx = [i for i, l in enumerate(lines2) if l]
+        outs, _, _ = C.run_lines(C.driver_bin(), [prop], [lines2[i] for i in idx], timeout=900)
+        already = {l for l, _, _, _ in pviol}
+        for i, o in zip(idx, outs):
+            outcome_checked += 1
+            if o != "ok" and cases[i] not in already:
+                pviol.append((cases[i], impl[i], model[i],
+                              f"the model's outcome predicate (`allowed`, Lean) does not admit the implementation's observation: {o}"))
     # A failure that does not persist when the case is run again on its own is not counted: the
     # cases are deterministic by construction, so a one-off difference in a batch of tens of
     # thousands is the harness being starved on a loaded machine (e.g. a goroutine missing the
@@ -102,6 +115,12 @@ def run(mod, tier, seed, replay=None):
             if is_pred:
                 if i2 is None or mod.predicate(line, i2):
                     return True
+                if hasattr(mod, "second_pass") and have_driver:
+                    l2 = mod.second_pass(line, i2)
+                    if l2:
+                        o2, _, _ = C.run_lines(C.driver_bin(), [prop], [l2], timeout=120)
+                        if o2[0] != "ok":
+                            return True
             elif i2 != m2:
                 return True
         return False
@@ -200,6 +219,8 @@ def run(mod, tier, seed, replay=None):
         "impl_missing_outputs": sum(1 for i in impl if i is None),
         "transient_not_reproduced": transient,
     }
+    if hasattr(mod, "second_pass"):
+        cov["outcome_predicate_evaluations"] = outcome_checked
     cov.update(getattr(mod, "extra_coverage", lambda: {})())
     C.write_evidence(prop, tier, seed, mod.LEVEL, cov, getattr(mod, "ASSUMPTIONS", []), time.time() - t0,
                      len(rep.violations))
